@@ -77,7 +77,10 @@ def py_extract(s):
 
 
 # ---------------------------------------------------------------- extract cases
-PRE = ["", "text/html; ", "x", "charset ", "charse", "CHARSET\t", "é", "charsetcharset", "char set="]
+# incl. characters whose Unicode lower/upper-case form has a different UTF-8 length (İ U+0130, K U+212A, ẞ U+1E9E, ı, ſ)
+# and multi-byte characters of every length: byte offsets found in a case-folded copy would not fit the original
+PRE = ["", "text/html; ", "x", "charset ", "charse", "CHARSET\t", "é", "charsetcharset", "char set=", "\u0130stanbul; ",
+       "\u0130", "\u212a;", "\u1e9e \u0130\u0130 ", "\U0001f600", "\u0131\u017f "]
 WORD = ["charset", "CHARSET", "cHaRsEt", "charsex", "harset", "ſharset", "charſet"]
 WS1 = ["", " ", "\t\n", "\x0c\r", "\x0b", " "]
 EQ = ["=", "", ":", "=="]
@@ -85,7 +88,7 @@ WS2 = ["", " ", "\n\t"]
 VAL = ["utf-8", "\"utf-8\"", "'utf-8'", "\"utf-8", "'utf-8", "\"a'b\"", "'a\"b'", "\"\"", "''", ";", "a;b", "a b", "a\tb",
        "é", "\"é\"", "", "\"a\"b\"", "=x", "'", "\"", "a\x0cb", "a\rb", "a\x0bb", "x&y", "é;"]
 POST = ["", " x", ";charset=z", "\"", " charset=late"]
-SYMS = ["charset", "=", " ", "\t", "\"", "'", ";", "x", "é"]
+SYMS = ["charset", "=", " ", "\t", "\"", "'", ";", "x", "é", "\u0130", "\u212a"]
 
 
 def mk_extract(s):
@@ -176,7 +179,7 @@ def gen_cases(tier, rng):
     cases = []
     # ---- extract: grammar
     for pre, w, w1, eq, w2, v, post in itertools.product(PRE, WORD, WS1, EQ, WS2, VAL, POST):
-        if not thorough and (pre not in ("", "text/html; ", "charset ") and post != "") :
+        if not thorough and (pre not in ("", "text/html; ", "charset ", "\u0130stanbul; ", "\u0130") and post != "") :
             continue
         cases.append((mk_extract(pre + w + w1 + eq + w2 + v + post), "extract-grammar"))
     # ---- extract: every truncation
